@@ -9,7 +9,7 @@ LEVEL = "exploration"
 RULE = (
     "Hypothesis RuleBasedStateMachine over one Pickled object started from a natural pickle "
     "(generated value, protocols 0-5) or an assembled program: rules insert / p[i]=op / "
-    "p[i:j]=ops / del p[i] / del p[i:j] / append / extend / pop / remove / reverse / += / the "
+    "p[i:j]=ops / p[i]=equal-looking opcode of the same class / del p[i] / del p[i:j] / append / extend / pop / remove / reverse / += / the "
     "injection helpers (insert_python_eval/exec in all flag combinations, append_python, "
     "insert_magic_int, insert_function_call_on_unpickled_object) interleaved with reads of one "
     "derived view (ast dump, has_import, has_call, has_non_setstate_call, imports text, "
@@ -109,6 +109,22 @@ def apply_step(p, step):
         elif kind == "setslice":
             i, j = sorted((step[1] % (n + 1), step[2] % (n + 1)))
             p[i:j] = [make_op(s) for s in step[3]]
+        elif kind == "replace_equal":
+            # p[i] = an opcode of the same class whose argument compares equal but is not the
+            # same value (True for 1, -0.0 for 0.0, ...), or an identical copy
+            if n:
+                i = step[1] % n
+                old = p[i]
+                twins = {True: 1, False: 0}
+                arg = old.arg
+                if isinstance(arg, bool):
+                    arg = int(arg)
+                elif isinstance(arg, int) and arg in (0, 1) and old.name == "INT":
+                    arg = bool(arg)
+                elif isinstance(arg, float) and arg == 0.0:
+                    arg = -arg
+                _ = twins
+                p[i] = type(old)(arg)
         elif kind == "delitem":
             if n:
                 del p[step[1] % n]
@@ -228,7 +244,9 @@ def _machine(res, holder):
             lambda t: pickle.dumps(t[0], protocol=t[1])
         ),
         asm.programs(prof, max_len=12).map(lambda pr: pr.data),
-        st.sampled_from([b"N.", b"]."]),
+        st.sampled_from([b"N.", b"].", b"I01\n.", b"(lp0\nI01\naI00\naI1\na.", b"I00\nI01\n\x86.",
+                         pickle.dumps([0.0, -0.0, 1.0], 2), b"G\x00\x00\x00\x00\x00\x00\x00\x00.",
+                         pickle.dumps((True, 0.0, 1), 0)]),
     )
 
     class Edits(RuleBasedStateMachine):
@@ -274,6 +292,10 @@ def _machine(res, holder):
         @rule(i=idx, j=idx, ss=st.lists(specs, max_size=3))
         def setslice(self, i, j, ss):
             self._edit(("setslice", i, j, ss))
+
+        @rule(i=idx)
+        def replace_equal(self, i):
+            self._edit(("replace_equal", i))
 
         @rule(i=idx)
         def delitem(self, i):
